@@ -989,6 +989,7 @@ pub fn prefilter_families() -> Vec<PFam> {
         pfam_k("n256-k", 256),
         pfam_k("n257-k", 257),
         pfam_k("n513-k", 513),
+        pfam("n20-minlen1", { let mut p: Pats = vec![b("q")]; p.extend((1..20usize).map(|i| vec![b'A' + i as u8, b'a', b'0' + (i % 10) as u8])); p }, false),
         pfam_n("n17-packed", 17),
         pfam_n("n65-packed", 65),
         pfam_n("n129-packed", 129),
@@ -1010,6 +1011,8 @@ pub fn prefilter_families() -> Vec<PFam> {
         pfam("ci-letterfree-first", vec![b("@"), b("["), b("`"), b("{"), b("xy")], true),
         // case-insensitive lists whose start-byte set (both cases counted)
         // has exactly three members, all patterns of length >= 2
+        pfam("ci-one-letterfree-first", vec![b("2024"), b("error")], true),
+        pfam("ci-one-letterfree-first-2", vec![b("@"), b("a"), b("bc")], true),
         pfam("ci-start3-letter-nonletter", vec![b("foo"), b("_bar")], true),
         pfam("ci-start3-nonletters", vec![b("<div"), b("&nbsp;"), b("#id")], true),
         pfam("ci-start3-rare4", vec![b("sam"), b("sauron"), b("shire"), b("1ring")], true),
@@ -1953,13 +1956,40 @@ pub fn check_many_dense_rows(rep: &Report) {
         };
         let spec = Spec::new(pats.clone(), false);
         let mut h: Vec<u8> = vec![];
-        for k in [7usize, n - 1, n / 2, 0, n / 3, 1, n - 2] {
+        // every seventh pattern (all first bytes occur many times), truncated
+        // patterns and noise in between
+        for k in (0..n).step_by(7).chain([n - 1, n - 2]) {
             h.extend_from_slice(&pats[k]);
             h.extend_from_slice(&pats[(k + 5) % n][..3]);
             h.push((k % 251) as u8);
         }
         let exp_iter = spec.iter(Kind::Std, &h, 0, h.len(), false);
         let exp_over = spec.overlapping(&h, 0, h.len(), false);
+        // the same collection through the low-level types' own constructors
+        // (their builders build and own the noncontiguous NFA themselves)
+        {
+            use aho_corasick::automaton::Automaton;
+            let low: Result<Vec<M>, String> = catch_unwind(AssertUnwindSafe(|| -> Result<Vec<M>, String> {
+                let inp = Input::new(&h);
+                match ak {
+                    AhoCorasickKind::DFA => aho_corasick::dfa::DFA::new(&pats).map_err(|e| e.to_string())?.try_find_iter(inp).map_err(|e| e.to_string()).map(|it| it.take(h.len() + 2).map(mm).collect()),
+                    AhoCorasickKind::ContiguousNFA => aho_corasick::nfa::contiguous::NFA::new(&pats).map_err(|e| e.to_string())?.try_find_iter(inp).map_err(|e| e.to_string()).map(|it| it.take(h.len() + 2).map(mm).collect()),
+                    _ => aho_corasick::nfa::noncontiguous::NFA::new(&pats).map_err(|e| e.to_string())?.try_find_iter(inp).map_err(|e| e.to_string()).map(|it| it.take(h.len() + 2).map(mm).collect()),
+                }
+            }))
+            .unwrap_or_else(|p| Err(format!("PANIC {}", crate::aut::panic_msg(&p))));
+            st.add("many_dense_rows_cases", 1);
+            if low.as_ref().ok() != Some(&exp_iter) {
+                rep.violation(Violation {
+                    property: rep.property.clone(),
+                    what: "many-dense-rows".into(),
+                    case: J::obj().set("engine", J::s("acdiff")).set("mode", J::s("huge-match-list")).set("n", J::i(n as i64)).set("ackind", J::s(akind_name(ak))),
+                    detail: format!("{} pseudo-random byte patterns, low-level {}::new(patterns), try_find_iter on a {}-byte haystack: got {:?}, SPEC {:?}", n, akind_name(ak), h.len(), low, exp_iter),
+                    tags: vec![],
+                });
+                return;
+            }
+        }
         let got_iter = catch_unwind(AssertUnwindSafe(|| ac.find_iter(&h).take(h.len() + 2).map(mm).collect::<Vec<M>>()));
         let got_over = catch_unwind(AssertUnwindSafe(|| ac.find_overlapping_iter(&h).take(8 * h.len()).map(mm).collect::<Vec<M>>()));
         st.add("many_dense_rows_cases", 1);
